@@ -785,6 +785,6 @@ func classify(c Case) core.Class {
 	}
 	cl.Labels = append(cl.Labels, "effective-events:"+lb)
 	cl.NonTrivial = s.secondLink || s.reparent || s.selfc || s.ancc
-	cl.Fingerprint = fmt.Sprintf("2nd=%v|reparent=%v|self=%v|anc=%v|deathlinks=%s|childdeath=%v|len=%s|disc=%v|db=%s|reopen=%v", s.secondLink, s.reparent, s.selfc, s.ancc, dl, s.deathWithParent, lb, s.classes["disconnect-child"] > 0, c.dbMode(), s.reopens > 0)
+	cl.Fingerprint = fmt.Sprintf("2nd=%v|reparent=%v|self=%v|anc=%v|deathlinks=%s|childdeath=%v|len=%s|disc=%v|reopen=%v", s.secondLink, s.reparent, s.selfc, s.ancc, dl, s.deathWithParent, lb, s.classes["disconnect-child"] > 0, s.reopens > 0)
 	return cl
 }
